@@ -1,6 +1,7 @@
 """C19 deductive part: frame conditions F1-F5 of fit / predict for every estimator class (effect analysis over the real ASTs)."""
 from ..contracts.adv_gradflow import Evaluate
 from ..contracts.eg_predict import Predict as EGPredict
+from ..contracts.eg_predict import ThresholderPredict
 from ..pyvc import verify
 from ..static import frames
 
@@ -14,7 +15,7 @@ def run_deductive(rep):
     rep.trust("torch/keras module contract: a forward pass in evaluation mode is a pure function of the input and the parameters; in training mode Dropout draws "
               "random masks and BatchNorm updates its running statistics (assumed)")
     # repeating predict(random_state=s) repeats the answer: every random draw comes from the generator derived from the caller's random_state
-    verify.verify_many(rep, [(EGPredict(True), []), (EGPredict(False), [("global_generator_instead_of_the_seeded_one", verify.replace_expr("random_state.choice", "np.random.choice"))]),
+    verify.verify_many(rep, [(ThresholderPredict(), []), (EGPredict(True), []), (EGPredict(False), [("global_generator_instead_of_the_seeded_one", verify.replace_expr("random_state.choice", "np.random.choice"))]),
                              (Evaluate("torch", False), [("evaluation_mode_not_entered", verify.replace_expr("self.predictor_model.eval()", "None"))]),
                              (Evaluate("torch", True), []),
                              (Evaluate("tf"), [("training_flag_dropped", verify.replace_expr("self.predictor_model(X, training=False)", "self.predictor_model(X)"))])])
